@@ -34,7 +34,38 @@
       [G_mark] (dropping a handle, a sound finishing).
     - [DrainFilter] / the index loop of [remove_unused] read the list structure lazily; only the audio
       thread mutates the arena and [keys], so a snapshot of the keys still to be visited taken at the
-      start of the pass ([ARemoving cur]) visits the same slots in the same order. *)
+      start of the pass ([ARemoving cur]) visits the same slots in the same order.
+
+    CREATION CALL SITES (kira 0.10.5 as in /repo; "fallible part" = code that can end the creation
+    early: a [Result] that is propagated with [?], or user code that may unwind).  "B" = the fallible part
+    runs BEFORE [try_reserve] (a failure finds the gameplay thread in [GIdle]: step [G_fail]); "A" = user
+    code runs AFTER [try_reserve] and before [insert_with_key] has pushed (a failure finds it in
+    [GReserved k]: step [X_fail_late] of the extension at the end of this file; the code has no way of
+    giving the key back: [atomic_arena::Controller] only has [try_reserve], and [Key] is [Copy] without
+    [Drop]).
+
+    | call site (file:line)                                   | storage            | order of the code                                                                 | fallible part                                 | where |
+    |---------------------------------------------------------|--------------------|-----------------------------------------------------------------------------------|-----------------------------------------------|-------|
+    | MainTrackHandle::play       track/main/handle.rs:17-28  | sounds, main track | into_sound()? (21-23) -> sound_controller.insert (24-26) = try_reserve; insert_with_key | SoundData::into_sound -> Err (IntoSoundError) | B, no payload |
+    | TrackHandle::play           track/sub/handle.rs:44-55   | sounds, sub-track  | into_sound()? (48-50) -> insert (51-53)                                            | the same                                      | B, no payload |
+    | SpatialTrackHandle::play    track/sub/spatial_handle.rs:44-55 | sounds, spatial track | into_sound()? (48-50) -> insert (51-53)                                     | the same                                      | B, no payload |
+    | AudioManager::play          manager.rs:109-114          | sounds, main track | = main_track().play                                                               | the same                                      | B |
+    | AudioManager::add_sub_track manager.rs:117-128          | sub-tracks, mixer  | TrackBuilder::build (121-122) -> init_effects (123) -> insert (124-126)           | none by type; Effect::init (user code) may unwind: the built Track is dropped by the caller | B, payload built |
+    | AudioManager::add_spatial_sub_track manager.rs:131-148  | sub-tracks, mixer  | SpatialTrackBuilder::build (137-142) -> init_effects (143) -> insert (144-146)    | as above                                      | B, payload built |
+    | TrackHandle::add_sub_track  track/sub/handle.rs:58-67   | sub-tracks of a track | build (62-63) -> init_effects (64) -> insert (65)                              | as above                                      | B, payload built |
+    | TrackHandle::add_spatial_sub_track  track/sub/handle.rs:70-85 | sub-tracks of a track | build (76-81) -> init_effects (82) -> insert (83)                        | as above                                      | B, payload built |
+    | SpatialTrackHandle::add_sub_track   track/sub/spatial_handle.rs:58-67 | sub-tracks of a spatial track | build (62-63) -> init_effects (64) -> insert (65)          | as above                                      | B, payload built |
+    | SpatialTrackHandle::add_spatial_sub_track track/sub/spatial_handle.rs:70-85 | sub-tracks of a spatial track | build (76-81) -> init_effects (82) -> insert (83)    | as above                                      | B, payload built |
+    | AudioManager::add_send_track manager.rs:151-166         | send tracks        | try_reserve? (155-158) -> SendTrackBuilder::build(id) (160) -> init_effects (161) -> insert_with_key (162-164) | none by type; Effect::init (user code) runs with the key reserved | A, payload built |
+    | AudioManager::add_modulator manager.rs:209-223          | modulators         | try_reserve? (213-216) -> ModulatorBuilder::build(id) (218, user code) -> insert_with_key (219-221) | none by type; the user's builder runs with the key reserved | A, no payload |
+    | AudioManager::add_clock     manager.rs:182-193          | clocks             | try_reserve? (186) -> Clock::new (188) -> insert_with_key (189-191)               | none (no user code in between)                | - |
+    | AudioManager::add_listener  manager.rs:239-254          | listeners          | try_reserve? (244-247) -> Listener::new (249) -> insert_with_key (250-252)        | none (no user code in between)                | - |
+    | ResourceController::insert_with_key backend/resources.rs:228-235 | every storage | remove_unused (229: pops AND DROPS the payloads the audio thread gave back, user Drop code) -> push (230-234) | a payload's Drop may unwind with the key reserved | A, payload built |
+
+    EffectBuilder::build and the built-in builders are infallible by type, and TrackBuilder::{add_effect,
+    with_effect} run them when the effect is added to the builder, i.e. before any of the calls above.
+    StreamingSoundData::into_sound fails (before anything is reserved) when the decoder's first [seek]
+    fails (sound/streaming/sound/decode_scheduler.rs:66). *)
 From Coq Require Import Arith List Bool.
 From KV Require Import Base.Outcome.
 Import ListNotations.
@@ -265,6 +296,19 @@ Definition g_mark (p : nat) (s : state) : outcome state :=
              (st_inflight s))
   else Ok s.
 
+(** a creation whose fallible part runs BEFORE [try_reserve] fails (table at the top of the file:
+    [SoundData::into_sound] returns [Err] — [built = false], no payload exists —, or the user's
+    [Effect::init] unwinds out of [add_sub_track] — [built = true], the caller drops the track it had
+    built).  The controller, the rings and the arena are not touched: the early return / the unwinding
+    happens before the first access to the [ResourceController].  In the storages whose payload is built
+    after the reservation ([prebuild = false]: clocks, modulators, listeners) nothing fallible runs at this
+    point: the step is a stutter step there. *)
+Definition g_fail (cf : cfg) (built : bool) (s : state) : outcome state :=
+  match st_g s with
+  | GIdle => Ok (if prebuild cf && built then reject_payload s else s)
+  | _ => Ok s
+  end.
+
 (** ** audio thread: [remove_and_add] *)
 
 Definition a_start (cf : cfg) (s : state) : outcome state :=
@@ -348,7 +392,8 @@ Definition a_add (cf : cfg) (s : state) : outcome state :=
 (** ** schedules *)
 Inductive label :=
 | G_reserve | G_drain_one | G_drain_done | G_push | G_mark (p : nat)
-| A_start | A_remove | A_push | A_add.
+| A_start | A_remove | A_push | A_add
+| G_fail (built : bool).
 
 Definition thread_of (l : label) : thread :=
   match l with A_start | A_remove | A_push | A_add => Audio | _ => Gameplay end.
@@ -365,6 +410,7 @@ Definition step (cf : cfg) (l : label) (s : state) : outcome state :=
   | A_remove => a_remove cf s
   | A_push => a_push cf s
   | A_add => a_add cf s
+  | G_fail built => g_fail cf built s
   end.
 
 Fixpoint run (cf : cfg) (sched : list label) (s : state) : outcome state :=
@@ -378,3 +424,35 @@ Definition res_len (s : state) : nat := ctl_len (st_ctl s).            (* num_* 
 Definition res_capacity (s : state) : nat := ctl_capacity (st_ctl s).  (* *_capacity *)
 (** what an id resolves to on the audio thread ([Info::clock_info], [modulator_value], a send route…) *)
 Definition resolve (s : state) (k : key) : outcome (option nat) := arena_get (st_ar s) k.
+
+(** * extension: a creation that is abandoned AFTER the reservation
+
+    [X_fail_late built]: user code that runs between [try_reserve] and the push of [insert_with_key]
+    unwinds (table at the top: [ModulatorBuilder::build], a send track's [Effect::init], the [Drop] of a
+    payload popped from the unused-ring), or — what the seeded change "reserve before [into_sound]" does —
+    a [Result] is propagated with [?] at that point.  The key was a local variable; nothing gives the slot
+    back, nothing was pushed under it, so the audio thread never sees it: the slot stays reserved for ever
+    (ghost [x_leaked]).  With [built = true] the caller drops the payload it had built.  The base steps are
+    lifted unchanged. *)
+Record xstate := mkX { xs : state; x_leaked : list key }.
+Inductive xlabel := XL (l : label) | X_fail_late (built : bool).
+
+Definition xinit (cf : cfg) : xstate := mkX (init cf) [].
+
+Definition g_fail_late (built : bool) (x : xstate) : outcome xstate :=
+  match st_g (xs x) with
+  | GReserved k => Ok (mkX (set_g (if built then reject_payload (xs x) else xs x) GIdle) (k :: x_leaked x))
+  | _ => Ok x
+  end.
+
+Definition xstep (cf : cfg) (l : xlabel) (x : xstate) : outcome xstate :=
+  match l with
+  | XL l => let! s' := step cf l (xs x) in Ok (mkX s' (x_leaked x))
+  | X_fail_late built => g_fail_late built x
+  end.
+
+Fixpoint xrun (cf : cfg) (sched : list xlabel) (x : xstate) : outcome xstate :=
+  match sched with
+  | [] => Ok x
+  | l :: rest => let! x' := xstep cf l x in xrun cf rest x'
+  end.
